@@ -168,15 +168,6 @@ def subSum (e : σ) (s : State σ κ) : Int :=
 /-- `balance(exec address) - Σ (balance + frozen)` of its sub-accounts. -/
 def deficit (c : Cfg σ κ) (s : State σ κ) (e : σ) : Int := (loadMain c s e).bal - subSum e s
 
-/-- genesis grants are non-negative (the hypothesis `GenesisInit` does not check). -/
-def GenesisOK : Op σ → Prop
-  | .genesis _ amt => 0 ≤ amt
-  | .genesisExec _ amt _ => 0 ≤ amt
-  | _ => True
-
-instance (op : Op σ) : Decidable (GenesisOK op) := by
-  cases op <;> unfold GenesisOK <;> infer_instance
-
 /-- amount by which an operation with result `r` is meant to change the supply. -/
 def opSupply : Op σ → Res → Int
   | .mint _ amt, .ok => amt
@@ -206,12 +197,19 @@ theorem checkAmount_iff (amt : Int) : checkAmount amt = true ↔ 0 < amt ∧ amt
   rw [Bool.and_eq_true, decide_eq_true_iff, decide_eq_true_iff]
 
 theorem safeAdd_some {b amt nb : Int} (h : safeAdd b amt = some nb) (hb0 : 0 ≤ b)
-    (hb1 : b ≤ 9000000000000000000) (ha : 0 ≤ amt) :
-    nb = b + amt ∧ nb ≤ 9000000000000000000 := by
+    (hb1 : b ≤ 9000000000000000000) :
+    nb = b + amt ∧ nb ≤ 9000000000000000000 ∧ 0 ≤ amt := by
   unfold safeAdd wrap maxBal at h
   simp only at h
   split at h
   · cases h
   · cases h; omega
+
+theorem safeAdd_ok {b amt : Int} (hb0 : 0 ≤ b) (ha : 0 ≤ amt) (h : b + amt ≤ 9000000000000000000) :
+    safeAdd b amt = some (b + amt) := by
+  unfold safeAdd wrap maxBal
+  simp only
+  rw [if_neg (by omega)]
+  congr 1; omega
 
 end C15
